@@ -193,7 +193,7 @@ def rule_m2345(prog: Program, col: Collector) -> None:
               necessity="norm-info read after normalisation is (1, zeros): de-normalising with it does not restore the original values")
     rets = list(ft.of_kind("return"))
     col.check(bool(rets) and all(r.value == info[0].term for r in rets), ref.where(), ref.short, "normalize_game returns that norm-info", construct="norminfo-return",
-              necessity="")
+              necessity="the caller de-normalises with the returned info: it must be the info captured before the game was changed")
 
     col.rule("M5", "normalize_game / denormalize_game dispatch on both members of NormalizableGame", 2)
     kinds = set()
@@ -211,7 +211,7 @@ def rule_m2345(prog: Program, col: Collector) -> None:
     okd = bool(gcall) and gcall[0].args == (dgp, dinfo) and any(
         f[0] == "if" and f[2] is True and is_call_to(f[1], "isinstance") and f[1][2][0] == dgp for f in gcall[0].ctx)
     col.check(okd, dref.where(), dref.short, "denormalize_game routes graph games to _denormalize_graph_game(game, info)", construct="dispatch-denormalize",
-              necessity="")
+              necessity="a graph game de-normalised by the table routine (or not at all) does not return to its original values")
 
     col.rule("M3", "de-normalisation is the inverse of normalisation: (- singleton per member, / G) vs (* G, + singleton per member); norm-info tuple order agrees", 6)
     iref = prog.func("normalize._get_norminfo")
